@@ -61,7 +61,18 @@ func CheckProperty(cfg *Config, id string) int {
 	shards := spec.Quick
 	cv := spec.CVQuick
 	if cfg.Tier == "thorough" && len(spec.Thorough) > 0 {
-		shards = spec.Thorough
+		// the thorough tier is a superset of the quick tier: quick shards that the
+		// thorough list does not name are appended
+		shards = append([]Shard{}, spec.Thorough...)
+		have := map[string]bool{}
+		for _, s := range shards {
+			have[fmt.Sprint(s.Entry, s.Args)] = true
+		}
+		for _, s := range spec.Quick {
+			if !have[fmt.Sprint(s.Entry, s.Args)] {
+				shards = append(shards, s)
+			}
+		}
 		cv = spec.CVThor
 	}
 	if os.Getenv("GOSE_NOCV") != "" {
